@@ -411,6 +411,9 @@ func (w *worker) run(bi int, beh []map[string]any, res *vh.Result) {
 	r := &runner{w: w, ch: fmt.Sprintf("lc%d_%d", vh.Seed(), bi), async: vh.Bool(st0["async"]),
 		gids: map[uint64]string{}, expect: map[string]string{}, parked: map[string]string{}, threads: map[string]*thread{}}
 	t := cl.NewTransport(centrifuge.ProtocolTypeJSON)
+	if vh.Bool(st0["nopush"]) {
+		t.DisabledFlags = centrifuge.PushFlagSubscribe // the server-side subscribe writes no push on this transport
+	}
 	t.OnClose = func(centrifuge.Disconnect) {
 		if rr := w.runner(); rr == r {
 			r.gate("TransportClose")
